@@ -13,7 +13,8 @@ RULE = (
     "case = (FASTA file as records [name, description, residues, width, eol] + final-newline flag, buffer size, probe "
     "intervals). 1-6 records; lengths 0, 1, width-1, width, width+1, k*width and arbitrary up to 12 lines; widths 1-80; LF "
     "or CRLF per record; residues run-structured over ACGTacgt, N/n, other IUPAC and *-.xXuU with runs of 1-200; names over "
-    "printable ASCII + a UTF-8 letter, optional description after space or tab; final newline present or absent; buffer "
+    "printable ASCII + a UTF-8 letter (sometimes containing characters that are white space for str.split but not for faidx), "
+    "optional description after space or tab (sometimes latin-1 bytes that are not valid UTF-8); final newline present or absent; buffer "
     "sizes 1,2,3,7,width+-1,64,250000. Oracle: reference reader (vf/ref.py read_fasta, split on headers, offsets by counting "
     "bytes): names+order, length, offset, residues/bytes per line (when the record has a terminated sequence line), "
     "sequence_bytes for ALL intervals when length <= 40 else 60 drawn + line-boundary intervals, derived assembly = "
@@ -45,6 +46,8 @@ def classes_of(plain):
                     cl.add("non_acgt_at_line_boundary")
         if desc:
             cl.add("description")
+        if any(ord(c) > 127 for c in desc) or any(c in name for c in gen.EXOTIC_NAME_PARTS):
+            cl.add("non_utf8_description_or_unicode_space_in_name")
     if not plain["final_newline"]:
         cl.add("no_final_newline")
     return cl
@@ -158,7 +161,7 @@ BUFFERS = [1, 2, 3, 7, 64, 250000]
 
 @st.composite
 def cases(draw):
-    f = draw(gen.fasta_file())
+    f = draw(gen.fasta_file(exotic_headers=True))
     widths = [r[3] for r in f["records"]]
     buf = draw(st.sampled_from(BUFFERS + [max(1, widths[0] - 1), widths[0] + 1, widths[-1]]))
     pairs = draw(st.lists(st.tuples(st.integers(0, 10**6), st.integers(0, 10**6)).map(list), min_size=60, max_size=60))
